@@ -78,7 +78,8 @@ def run(res, tier, br, model_ok=True, search=False):
             if not b or len(b) != 1:
                 continue            # fatal parse error: not "analysed to a verdict"
             rp = {"kind": "options", "name": name, "src": src}
-            opts = OPTS if (big or k < 4) else rng.sample(OPTS, 5)
+            hand = name in ("defs.c", "notice.c", "defs.h", "octal.c", "binary.c", "string.c", "esc.c")
+            opts = OPTS if (big or k < 4 or hand) else rng.sample(OPTS, 5)
             for o in opts:
                 use_sub = (k + len(o)) % 9 == 0
                 out = run_cli(o + [name], d) if use_sub else main_inprocess(o + [name], d)
